@@ -194,15 +194,50 @@ fn run_case(cx: &CaseCtx, rep: &mut Report) {
 		pmtiles_root_boundary_walk(cx, rep, &mut rng);
 		return;
 	}
-	let target = if (13..=15).contains(&cx.case) {
+	let target = if (13..=15).contains(&cx.case) || cx.case == 20 {
 		"pmtiles"
 	} else if (16..=18).contains(&cx.case) {
 		"mbtiles"
+	} else if cx.case == 19 {
+		"versatiles"
+	} else if cx.case == 21 {
+		["tar", "directory", "mbtiles"][(cx.seed % 3) as usize]
 	} else {
 		TARGETS[(cx.case % 5) as usize]
 	};
 	let big = cx.case < 10 && (target == "pmtiles" || target == "versatiles") && cx.case < 5 * cx.tier.pick(1, 2);
-	let ts = if (13..=15).contains(&cx.case) {
+	let ts = if cx.case == 19 {
+		// deep levels, coordinates a power of two apart: tiles 2^24 rows apart in neighbouring block columns (and
+		// the blocks between them empty) — anything that folds block coordinates into fewer bits collides here
+		let (format, comp) = *rng.pick(&pairs_for(target));
+		let mut tiles = std::collections::BTreeMap::new();
+		for z in [25u8, 27] {
+			let far = 1u32 << 24;
+			for (x, y) in [(255u32, far), (256, 0), (255, 0), (256, far), (255, far + 256), (256, 65536 * 3)] {
+				tiles.insert((z, x, y), gen::payload_unique(z, x, y, 40, &mut rng));
+			}
+		}
+		TileSet { format, comp, tiles, tilejson: gen::gen_tilejson(&mut rng, format), shape: "z25 / z27: tiles 2^24 rows apart in neighbouring block columns".into(), really_compressed: false }
+	} else if cx.case == 20 || cx.case == 21 {
+		// one corner (with its inner neighbours) of every level from 24 to 31, the corner rotating from level to level:
+		// the last ids of a level in any space-filling order, the largest coordinates there are. (One corner per
+		// level keeps the level's box small — the writers walk the 256-grid of that box.)
+		let (format, comp) = *rng.pick(&pairs_for(target));
+		let mut tiles = std::collections::BTreeMap::new();
+		for z in 24..=31u8 {
+			let m = ((1u64 << z) - 1) as u32;
+			let cluster: [(u32, u32); 3] = match (z as u64 + cx.seed) % 4 {
+				0 => [(m, 0), (m - 1, 0), (m, 1)],
+				1 => [(0, m), (1, m), (0, m - 1)],
+				2 => [(m, m), (m - 1, m), (m, m - 1)],
+				_ => [(0, 0), (1, 0), (0, 1)],
+			};
+			for (x, y) in cluster {
+				tiles.insert((z, x, y), gen::payload_unique(z, x, y, 30, &mut rng));
+			}
+		}
+		TileSet { format, comp, tiles, tilejson: gen::gen_tilejson(&mut rng, format), shape: "corners of the levels 24..31".into(), really_compressed: false }
+	} else if (13..=15).contains(&cx.case) {
 		// exactly 16383 / 16384 / 16385 directory entries: the writer's single-directory threshold
 		let n = 16383 + (cx.case - 13) as usize;
 		let mut t = big_tileset(&mut rng, target);
@@ -238,7 +273,7 @@ fn run_case(cx: &CaseCtx, rep: &mut Report) {
 	}
 	// the target may already exist: an older, larger version of the same tile set (same names, longer files) is
 	// written first; nothing of it may shine through afterwards
-	let refreshed = !big && !(13..=18).contains(&cx.case) && ts.tiles.len() <= 1500 && rng.chance(0.35);
+	let refreshed = !big && !(13..=21).contains(&cx.case) && ts.tiles.len() <= 1500 && rng.chance(0.35);
 	if refreshed {
 		let mut old = ts.clone();
 		for v in old.tiles.values_mut() {
